@@ -205,6 +205,27 @@ func C02(p *load.Prog, r *oblig.Run) {
 	if n == 0 {
 		r.Add("R02.a", "paths", p.Pos(dec.Pos()), "paths").Unknown("no path from a parsed line back to the loop header")
 	}
+	// R02.f: depth invariant; the effective level of a non-root line is the index expression (lvl-1) of its parent
+	c02Depth(p, r, dec, header, level, paths, func(path []*ssa.BasicBlock) (ssa.Value, bool) {
+		for _, b := range path[:len(path)-1] {
+			for _, ins := range b.Instrs {
+				rv, ok := isAttach(ins)
+				if !ok {
+					continue
+				}
+				if ld, ok := rv.(*ssa.UnOp); ok {
+					if ia, ok := ld.X.(*ssa.IndexAddr); ok {
+						if bo, ok := ia.Index.(*ssa.BinOp); ok && bo.Op == token.SUB {
+							if k, isK := su.ConstInt(bo.Y); isK && k == 1 {
+								return bo.X, true
+							}
+						}
+					}
+				}
+			}
+		}
+		return nil, false
+	})
 	// R02.c / R02.d at returns of a document
 	build := p.Method(load.PkgRoot, "Document", "buildPointerCache")
 	for _, b := range dec.Blocks {
